@@ -29,7 +29,7 @@ func verifASCII(name string, n int) []byte {
 // budget (a constant for I/O buffers plus 64 elements per input byte): what
 // make() allocates must stay proportional to the input.
 //
-//verif:harness param.L=0..4 thorough.param.L=0..5 unwind=48 thorough.deadline=1500
+//verif:harness param.L=0..4 unwind=48
 func verif_harness_C16_buckets_bytes() {
 	var bs Buckets
 	err := bs.UnmarshalText(verifASCII("text", verif_param("L")))
